@@ -3,12 +3,74 @@
 two cannot drift). Run after adding or changing a check."""
 import json, subprocess, sys
 
+T = "Trusted: the Go toolchain; the hand-written reference (refjson reader/PDA, ref6902, ref7396), kept small and cross-checked against each other and the RFC examples in the harness tests. "
+
 CHECKS = {
  # id: (engine, design_ref, technique, level text, level note)
  "C01": ("seqx", "DESIGN.md §4 E1, §5 C01",
-   "bounded-exhaustive enumeration of RFC 6902 operation sequences on the real code vs. reference evaluator",
-   "Every operation sequence up to the stated depth over an alphabet rebuilt from the current reference state (all resolvable pointers, near-misses, 8 value shapes, 6 operations) is executed through DecodePatch+ApplyWithOptions on every curated document with SupportNegativeIndices on and off, and the result is compared with an independent RFC 6902/6901 evaluator using an independent literal-preserving JSON reader. Exhaustive within the bound; nothing sampled.",
-   "Trusted: the Go toolchain, refjson/ref6902 (hand-written, cross-checked in harness tests). Bounds: depth 2 (quick) / 3 (thorough), curated documents, value alphabet; data outside the alphabet is covered only by the one-representative-per-branch argument."),
+   "bounded-exhaustive enumeration of RFC 6902 operation sequences on the real code vs. a reference evaluator",
+   "Every operation sequence up to the stated depth over an alphabet rebuilt from the current reference state (all resolvable pointers, near-misses, 8 value shapes, 6 operations) is executed through DecodePatch+ApplyWithOptions on every curated document with SupportNegativeIndices on and off, and compared with an independent RFC 6902/6901 evaluator through an independent literal-preserving JSON reader. Exhaustive within the bound; nothing sampled.",
+   T+"Bounds: depth 2 (quick) / 3 (thorough), 12 curated documents, value alphabet; data outside the alphabet is covered only by the one-representative-per-branch argument."),
+ "C02": ("mergex", "DESIGN.md §4 E2, §5 C02",
+   "exhaustive enumeration of (document, merge patch) edges over value families vs. RFC 7396 pseudo-code",
+   "All edges D x P over enumerated value families (every JSON value of bounded depth/width over a small name and scalar alphabet, incl. type changes at depth 3 and nulls inside arrays) are run through MergePatch and compared with the RFC 7396 pseudo-code on independent trees; documents and patches are also fed in reordered / whitespace / escaped spellings.",
+   T+"Bounds: value families V1..V3 (names a,b,c; arrays <= 2 elements; depth <= 3)."),
+ "C03": ("mergex", "DESIGN.md §4 E2, §5 C03",
+   "exhaustive enumeration of ordered pairs (A,B) with round-trip and minimality oracle",
+   "CreateMergePatch is run on all ordered pairs of objects of the value family (plus numbers beyond float64 precision), pairs of arrays of objects, and all pairs of other roots; oracle: success, {} iff equal, every mentioned path differs, removed => null, values are B's literals, RFC and library round trip when B has no null member, rejection of wrong-shaped roots.",
+   T+"Bounds: objects of V2 (quick) / V3 (thorough)."),
+ "C04": ("bytex+seqx", "DESIGN.md §4 E3 bytex(b), §5 C04",
+   "exhaustive enumeration of all short byte strings into every []byte parameter, and of out-of-domain operation sequences under every option combination, on both packages; oracle: returns without panic",
+   "Complements the other checks (each of which reports panics inside its own domain) with what they exclude: every string over a 16-symbol alphabet up to length 4/5 in every []byte parameter of both packages; all sequences of <= 2 operations containing an out-of-domain operation (empty tokens, non-canonical/overflowing indices, bad escapes, '' as destination, root replaced by null/scalar, test without value) under every combination of the four ApplyOptions booleans and three limits; 10000/10001-deep nesting; EnsurePathExistsOnAdd indices up to 10^4. A hang is a call not returning within a 30 s watchdog.",
+   T+"'Never hangs' is decided as 'returns within the watchdog'. An unrecoverable crash of the harness process (stack overflow, out of memory) is reported by the driver as a failed run, not as silence."),
+ "C05": ("seqx+mergex", "DESIGN.md §4 E1/E2, §5 C05",
+   "C01's enumeration judged with ordered, literal-exact equality, plus all merge edges judged for member order",
+   "The reference evaluator tracks member order exactly as the statement prescribes; every in-domain sequence (incl. the empty patch) must yield the same members in the same order with byte-identical number literals (documents carry 1.0, 1e400, -0, 23-digit integers). MergePatch edges: survivors lead in document order, literals untouched.",
+   T+"Bounds as C01 / C02."),
+ "C06": ("mergex+bytex", "DESIGN.md §4 E2/E3, §5 C06",
+   "exhaustive enumeration of ordered pairs of values x spellings, and of all short byte strings, vs. reference structural equality",
+   "Equal is compared with reference structural equality on all ordered pairs of the value family, each value also reordered, whitespace-padded and \\u-escaped (null roots, nulls in arrays, array vs null included); agreement with an equivalence relation on the whole set yields reflexivity/symmetry/transitivity there. Every string over 16 symbols up to length 4/5 against {itself, {}, [], {\"a\":1}, null}: malformed => false.",
+   T+"Numerically equal but differently spelled numbers are outside the stated domain (DontCare)."),
+ "C07": ("mergex", "DESIGN.md §4 E2, §5 C07",
+   "exhaustive enumeration of triples (D,P1,P2) restricted by the compatibility predicate; composition law through the reference merge and through the library's own",
+   "For every pair of object patches of the family satisfying the stated compatibility condition (computed by the reference) MergeMergePatches is run once and the result applied, with the RFC reference, to every document of the document family: it must equal applying P1 then P2. The same law is checked through the library's MergePatch on a sub-family; non-object P2 must come back verbatim.",
+   T+"Bounds: V2 objects (quick) / V3 objects (thorough) x ~60 documents."),
+ "C08": ("seqx", "DESIGN.md §4 E1, §5 C08",
+   "bounded-exhaustive enumeration of failing operation sequences under cause-changing option combinations; errors.Is/As class vs. reference cause; one-step extension invariance",
+   "Every failing sequence up to depth 2 under 10 option combinations is judged: nil document, non-nil error, ErrTestFailed iff the reference cause is an unequal test, *AccumulatedCopySizeError iff the copy limit, ErrMissing for absent members / unreachable parents; each failing prefix is re-run with further operations appended and must give the identical outcome.",
+   T+"Where two causes coincide (limit exceeded and inapplicable add) either class is accepted, as the statement leaves it open."),
+ "C11": ("decodex", "DESIGN.md §4 decodex, §5 C11",
+   "systematic enumeration of all single and pairwise member mutations of valid operations, plus all short byte strings, vs. an acceptance predicate transcribed from the statement",
+   "About 12 000 patch texts (all single and all pairs - thorough: triples - of delete / retype / rename-by-case / escape / duplicate mutations on one valid operation per kind, in three positions; element- and root-type changes) and every 16-symbol string up to length 4/5 are fed to DecodePatch; accept/reject must equal the reference predicate; accepted patches have Kind/Path/From/ValueInterface compared with independently decoded members.",
+   T+"Conflicting duplicate members and the text null are outside the stated domain."),
+ "C12": ("seqx", "DESIGN.md §4 E1, §5 C12",
+   "bounded-exhaustive enumeration of sequences containing copy operations x limits at, below and above every reference running total x EscapeHTML, in three configurations (v5 option, v5 package default, legacy global)",
+   "The reference computes the running copied-bytes total after every copy (canonical compact spelling under the current escaping); each sequence is re-run under limits {1, T-1, T, T+1, 2^40} for every prefix total T (package-level configurations: every limit 0..N): *AccumulatedCopySizeError exactly at the first copy whose total exceeds the limit, never otherwise, nil document, 0 disables.",
+   T+"A copied null may count 0 or 4 bytes (window = DontCare), as the statement allows."),
+ "C13": ("seqx", "DESIGN.md §4 E1, §5 C13",
+   "bounded-exhaustive enumeration with the option on; reference comparison plus differential oracle on the real code",
+   "With the option on (negatives on/off) every sequence to depth 2/3 is judged against the reference and differentially: Apply(on, P) must equal Apply(off, P minus the removes the reference marks skipped) in bytes or in error.",
+   T+"Bad index tokens, remove of '' and negative tokens with negatives off are outside the stated domain."),
+ "C14": ("seqx", "DESIGN.md §4 E1, §5 C14",
+   "exhaustive enumeration of add paths of 1..L tokens over a token alphabet, followed by every further operation; reference ensure+add with ordered equality, path lookup, plain-add agreement",
+   "Every add path of up to 3 (thorough 4) tokens over {a, b, 'a/b', 'm~n', 0, 1, 2} ('-' last) is applied with the option on to documents in which every prefix length already exists, followed by every operation of Sigma(D); oracle: reference result with ordered equality (frame condition), the value is found at the path, and equality with plain add wherever plain add succeeds.",
+   T+"Null/scalar on the path, negative indices and '-' before the last token are outside the stated domain."),
+ "C15": ("seqx+mergex", "DESIGN.md §4 E1/E2, §5 C15",
+   "bounded-exhaustive enumeration over documents/values with HTML, Unicode and control characters x EscapeHTML x indent strings; byte-level oracles and a test-deletion differential",
+   "Every successful output (Apply under both escape settings; MergePatch, MergeMergePatches, CreateMergePatch) must be accepted by the independent reader, be UTF-8 given UTF-8 input and equal the reference value; escape on => none of the five characters raw; off => no escape not already spelled in the inputs; ApplyIndent equals the independently re-indented Apply output for 3 indents; deleting passing test operations leaves the bytes identical.",
+   T+"Byte-identity clauses quantify over documents spelled as the encoder spells them."),
+ "C16": ("scanx+bytex", "DESIGN.md §4 E3, §5 C16",
+   "reachability over the synchronous product of the real scanner automaton with a reference pushdown recogniser (all 256 bytes per state), plus exhaustive short strings into codec functions and entry points",
+   "The library's private scanner is cloned and single-stepped (observation file injected by overlay) in lock-step with a reference recogniser; BFS over the product with stacks to depth 4 compares end-of-input acceptance in every reachable state: language equality for inputs of every length at that nesting. All strings over 33 byte classes up to length 5/6 whose proper prefixes are viable test Valid/Compact/Indent/Unmarshal/UnmarshalWithKeys; accepted strings (with whitespace around) and all 16-symbol strings up to 4/5 go to every public entry point; nesting at 10000/10001 levels.",
+   T+"Bytes >= 0x80 are treated as string characters without UTF-8 validation (the grammar applied to bytes, as the standard library does). Nesting between 5 and 9998 levels is covered by the stack-top-only argument, not by enumeration."),
+ "C18": ("seqx", "DESIGN.md §4 E1, §5 C18",
+   "C01's enumeration on the legacy root package (built as a module through an overlay go.mod), restricted to the stated domain",
+   "Sequences the reference evaluates successfully (without add '' / copy from '') must succeed with a structurally equal document; sequences whose first inapplicable operation is a failed test, a remove/move of an absent target or an out-of-range index must fail with no document; other failures are outside the domain.",
+   T+"The legacy package's options are package variables; explored one setting per phase."),
+ "C19": ("mergex", "DESIGN.md §4 E2, §5 C19",
+   "the merge engines on the legacy package within the stated domains",
+   "Legacy MergePatch edges (object/array patches), CreateMergePatch pairs (float64-printable numbers), MergeMergePatches composition, Equal on object/array roots without escapes - all exhaustively over the same value families as the v5 checks.",
+   T+"Domains as stated in the property."),
 }
 
 NOT_YET = {}
@@ -44,7 +106,14 @@ def main():
             "add_only": True,
         },
         "engines": [
-            {"name": "seqx", "path": "harness/seqx.go", "serves_properties": [c for c in CHECKS if CHECKS[c][0]=="seqx"], "kind_free_text": "explicit enumeration of operation sequences on the real code against a reference evaluator"},
+            {"name": e, "path": p, "serves_properties": sorted(c for c in CHECKS if e in CHECKS[c][0].split('+')), "kind_free_text": k}
+            for e, p, k in [
+              ("seqx", "harness/seqx.go", "explicit enumeration of RFC 6902 operation sequences on the real code against a reference evaluator (states = reference documents reached)"),
+              ("mergex", "harness/mergex.go", "documents as states, merge patches as edges: exhaustive pairs/triples over enumerated value families"),
+              ("bytex", "harness/bytex.go", "all byte strings up to a length into every []byte parameter"),
+              ("scanx", "harness/scanx_hook.go", "reachability over the product of the real scanner automaton and a reference pushdown recogniser"),
+              ("decodex", "harness/decodex.go", "all single/pair member mutations of valid operations vs. a reference acceptance predicate"),
+            ]
         ],
         "checks": checks,
         "not_applicable": na,
